@@ -731,8 +731,18 @@ class SimServer:
                 self.violation(conn, "DIGEST-MD5 does not take an initial response", dec.raw)
                 self._sasl_finish(conn, False, b"unexpected initial response")
                 return
-            chal = 'realm="%s",nonce="%s",qop="auth",charset=utf-8,algorithm=md5-sess' % (cfg.realm, cfg.nonce)
-            self._challenge(conn, chal.encode())
+            parts = ['realm="%s"' % cfg.realm, 'nonce="%s"' % cfg.nonce, 'qop="auth"', "charset=utf-8", "algorithm=md5-sess"]
+            if self.cap_variation or self.data_variation:
+                # the order of the directives of a digest-challenge is free (RFC 2831 2.1.1)
+                with self.ch.abs_scope(scope):
+                    o = self.ch.srv.int("digest.order", 4)
+                if o == 1:
+                    parts = parts[::-1]
+                elif o == 2:
+                    parts = [parts[3], parts[4], parts[2], parts[1], parts[0]]
+                elif o == 3:
+                    parts = [parts[1], parts[3], parts[0], parts[4], parts[2]]
+            self._challenge(conn, ",".join(parts).encode())
         else:
             # announced but not modelled (SCRAM-SHA-1, GSSAPI, ...): refuse
             self._sasl_finish(conn, False, b"mechanism not available")
